@@ -33,8 +33,24 @@ func JSONWorkerDelay(firstLine int) {
 	x = (x ^ (x >> 30)) * 0xbf58476d1ce4e5b9
 	x = (x ^ (x >> 27)) * 0x94d049bb133111eb
 	x ^= x >> 31
+	if jsonDelayMaxUS > 0 {
+		// heavy-tailed variant: most batches are not delayed at all, one in 64 sleeps up to VERIF_JSON_DELAY_MAX_US,
+		// so that a single batch can be overtaken by hundreds of later ones
+		if x%64 == 0 {
+			time.Sleep(time.Duration((x>>8)%jsonDelayMaxUS) * time.Microsecond)
+		}
+		return
+	}
 	time.Sleep(time.Duration(x%3000) * time.Microsecond)
 }
+
+var jsonDelayMaxUS = func() uint64 {
+	s, err := strconv.ParseUint(os.Getenv("VERIF_JSON_DELAY_MAX_US"), 10, 64)
+	if err != nil {
+		return 0
+	}
+	return s
+}()
 
 // ---- join scheduling ----------------------------------------------------------------------------------------------
 
